@@ -5,7 +5,7 @@
    Python: that is [GErr]; every translated method returns a [gres].
    Hand-written, no proofs.  *)
 From Coq Require Import ZArith List Bool.
-From V Require Import base.Cal rd.RdBase.
+From V Require Import base.Cal rd.RdBase rd.RdModel.
 Import ListNotations.
 Open Scope Z_scope.
 
@@ -44,6 +44,59 @@ Definition set_o_microseconds (o : obj) (v : Z) : obj :=
 Definition set_o_has_time (o : obj) (v : Z) : obj :=
   mkobj (o_years o) (o_months o) (o_days o) (o_leapdays o) (o_hours o) (o_minutes o) (o_seconds o) (o_microseconds o)
         (o_year o) (o_month o) (o_day o) (o_hour o) (o_minute o) (o_second o) (o_microsecond o) (o_weekday o) v.
+
+Definition put_o_year (o : obj) (v : option Z) : obj :=
+  mkobj (o_years o) (o_months o) (o_days o) (o_leapdays o) (o_hours o) (o_minutes o) (o_seconds o) (o_microseconds o)
+        v (o_month o) (o_day o) (o_hour o) (o_minute o) (o_second o) (o_microsecond o) (o_weekday o) (o_has_time o).
+Definition put_o_month (o : obj) (v : option Z) : obj :=
+  mkobj (o_years o) (o_months o) (o_days o) (o_leapdays o) (o_hours o) (o_minutes o) (o_seconds o) (o_microseconds o)
+        (o_year o) v (o_day o) (o_hour o) (o_minute o) (o_second o) (o_microsecond o) (o_weekday o) (o_has_time o).
+Definition put_o_day (o : obj) (v : option Z) : obj :=
+  mkobj (o_years o) (o_months o) (o_days o) (o_leapdays o) (o_hours o) (o_minutes o) (o_seconds o) (o_microseconds o)
+        (o_year o) (o_month o) v (o_hour o) (o_minute o) (o_second o) (o_microsecond o) (o_weekday o) (o_has_time o).
+Definition put_o_hour (o : obj) (v : option Z) : obj :=
+  mkobj (o_years o) (o_months o) (o_days o) (o_leapdays o) (o_hours o) (o_minutes o) (o_seconds o) (o_microseconds o)
+        (o_year o) (o_month o) (o_day o) v (o_minute o) (o_second o) (o_microsecond o) (o_weekday o) (o_has_time o).
+Definition put_o_minute (o : obj) (v : option Z) : obj :=
+  mkobj (o_years o) (o_months o) (o_days o) (o_leapdays o) (o_hours o) (o_minutes o) (o_seconds o) (o_microseconds o)
+        (o_year o) (o_month o) (o_day o) (o_hour o) v (o_second o) (o_microsecond o) (o_weekday o) (o_has_time o).
+Definition put_o_second (o : obj) (v : option Z) : obj :=
+  mkobj (o_years o) (o_months o) (o_days o) (o_leapdays o) (o_hours o) (o_minutes o) (o_seconds o) (o_microseconds o)
+        (o_year o) (o_month o) (o_day o) (o_hour o) (o_minute o) v (o_microsecond o) (o_weekday o) (o_has_time o).
+Definition put_o_microsecond (o : obj) (v : option Z) : obj :=
+  mkobj (o_years o) (o_months o) (o_days o) (o_leapdays o) (o_hours o) (o_minutes o) (o_seconds o) (o_microseconds o)
+        (o_year o) (o_month o) (o_day o) (o_hour o) (o_minute o) (o_second o) v (o_weekday o) (o_has_time o).
+Definition put_o_weekday (o : obj) (v : option wdv) : obj :=
+  mkobj (o_years o) (o_months o) (o_days o) (o_leapdays o) (o_hours o) (o_minutes o) (o_seconds o) (o_microseconds o)
+        (o_year o) (o_month o) (o_day o) (o_hour o) (o_minute o) (o_second o) (o_microsecond o) v (o_has_time o).
+
+(* an instance before __init__ has assigned anything *)
+Definition obj_blank : obj := mkobj 0 0 0 0 0 0 0 0 None None None None None None None None 0.
+
+(* ---- the arguments of the keyword constructor.  years / months may be non-integers: an exact
+   rational p/q (a Fraction, or a float whose value is exactly p/q); int() truncates, != is exact *)
+Definition ratv : Type := (Z * positive)%type.
+Definition rat_int (r : ratv) : Z := Z.quot (fst r) (Z.pos (snd r)).
+Definition rat_ne_int (r : ratv) (i : Z) : bool := negb (Z.pos (snd r) * i =? fst r).
+
+Record iargs := mkia {
+  ia_years : ratv; ia_months : ratv; ia_days : Z; ia_leapdays : Z; ia_weeks : Z;
+  ia_hours : Z; ia_minutes : Z; ia_seconds : Z; ia_microseconds : Z;
+  ia_year : option Z; ia_month : option Z; ia_day : option Z; ia_hour : option Z;
+  ia_minute : option Z; ia_second : option Z; ia_microsecond : option Z;
+  ia_weekday : wdarg }.
+
+(* the weekday= argument: None, an int, or a weekday object *)
+Definition wdarg_is_int (w : wdarg) : bool := match w with WInt _ => true | _ => false end.
+Definition wdarg_int (w : wdarg) : Z := match w with WInt k => k | _ => 0 end.
+Definition wdarg_obj (w : wdarg) : option wdv := match w with WObj k n => Some (k, n) | _ => None end.
+(* weekdays[k] for the module tuple weekdays = tuple(weekday(x) for x in range(7)): Python tuple
+   indexing (negative indices count from the end, IndexError outside -7 .. 6) *)
+Definition weekdays_getitem (k : Z) : res wdv :=
+  if (-7 <=? k) && (k <? 7) then Ok (k mod 7, None) else Err EIndex.
+
+(* a weekday instance before its __init__ ran *)
+Definition wd_blank : wdv := (0, None).
 
 (* ---- results: a value, or AttributeError *)
 Inductive gres (A : Type) : Type := GOk (a : A) | GErr.
